@@ -820,6 +820,17 @@ const OFFSETS: [&str; 2] = ["000000", "259200"]; // 0 and +3 days, equal length 
 /// clock speed that goes with each offset: the shifted environments also run every wall/monotonic clock 40x faster
 /// (elapsed' = 40 * elapsed), so a harness whose trace depends on how much real time passed differs between them
 const SCALES: [&str; 2] = ["001", "040"];
+/// what else differs between the two clock environments (see run_child)
+const ENV_VARS: [(&str, [&str; 2]); 6] = [
+    ("RUST_LOG", ["error", "trace"]),
+    ("RUST_BACKTRACE", ["0", "1"]),
+    ("RAYON_NUM_THREADS", ["2", "7"]),
+    ("TOKIO_WORKER_THREADS", ["2", "7"]),
+    ("TZ", ["UTC+0", "UTC-9"]),
+    ("HOME", ["/root", "/tmp/"]),
+];
+const ENV_CPUS: [&str; 2] = ["0-15", "3-05"];
+const ENV_DIRS: [&str; 2] = ["/", "/tmp"];
 
 #[derive(Clone, Debug, PartialEq, Eq)]
 struct Env {
@@ -886,7 +897,17 @@ fn shim_path() -> PathBuf {
 
 fn run_child(shim: &PathBuf, args: &[String], env: &Env) -> ChildOut {
     let exe = std::env::current_exe().unwrap_or_else(|e| machinery(&format!("current_exe: {e}")));
-    let out = Proc::new(&exe)
+    // the two clock environments also differ in everything else a process inherits: logging / thread-pool / time-zone
+    // variables (values of equal length, so the stack layout stays the same), the working directory and the CPUs it
+    // may run on (std::thread::available_parallelism follows the affinity mask)
+    let mut cmd = if std::path::Path::new("/usr/bin/taskset").exists() {
+        let mut c = Proc::new("/usr/bin/taskset");
+        c.args(["-c", ENV_CPUS[env.off]]).arg(&exe);
+        c
+    } else {
+        Proc::new(&exe) // no affinity dimension without taskset
+    };
+    let out = cmd
         .args(args)
         .env_clear()
         .env("LD_PRELOAD", shim)
@@ -894,6 +915,8 @@ fn run_child(shim: &PathBuf, args: &[String], env: &Env) -> ChildOut {
         .env("VERIF_CLOCK_OFFSET", OFFSETS[env.off])
         .env("VERIF_CLOCK_SCALE", SCALES[env.off])
         .env("VERIF_NO_ASLR", "1")
+        .envs(ENV_VARS.iter().map(|(k, v)| (*k, v[env.off])))
+        .current_dir(ENV_DIRS[env.off])
         .stdin(Stdio::null())
         .output()
         .unwrap_or_else(|e| machinery(&format!("cannot spawn child: {e}")));
@@ -1306,7 +1329,7 @@ fn main() {
     rep.finish(
         coverage,
         vec![
-            "E is owned through /verif/selfcomp/shim.so (verified at the start of every run, see coverage.shim_verification): getrandom/SYS_getrandom//dev/urandom answered from VERIF_RANDOM_KEY, realtime clocks shifted by VERIF_CLOCK_OFFSET and, in the shifted environments, every wall/monotonic clock sped up 40x by VERIF_CLOCK_SCALE (elapsed-time dependence), ASLR off. The hash-key dimension is 4 chosen keys, not all iteration orders a map can take; seeds >= S are outside the bound".into(),
+            "E is owned through /verif/selfcomp/shim.so (verified at the start of every run, see coverage.shim_verification): getrandom/SYS_getrandom//dev/urandom answered from VERIF_RANDOM_KEY, realtime clocks shifted by VERIF_CLOCK_OFFSET and, in the shifted environments, every wall/monotonic clock sped up 40x by VERIF_CLOCK_SCALE (elapsed-time dependence), ASLR off; the shifted environments also get different RUST_LOG / RUST_BACKTRACE / RAYON_NUM_THREADS / TOKIO_WORKER_THREADS / TZ / HOME values, another working directory and a 3-CPU affinity mask instead of 16 CPUs. The hash-key dimension is 4 chosen keys, not all iteration orders a map can take; seeds >= S are outside the bound".into(),
             "ahash (runtime-rng) mixes into every RandomState, besides the 64 getrandom bytes (owned), a counter advanced by the address of a heap box and started at the address of a static: with ASLR off and an empty environment these addresses are the same in all children (verified), so they are fixed, not enumerated; the same-process second run does see advanced ahash counters and std RandomState keys (k0+1 per map). Orders of ahash maps are therefore a function of (key, binary layout): reproducible for a given build of this binary, possibly different after a rebuild; orders of std maps depend on the key only".into(),
             "monotonic clocks are not shifted (std::time::Instant exposes differences only; shifting breaks absolute-deadline futex waits); the rate of time is not varied, so a decision on elapsed real time (none found in the harness paths: WriteBuffer/StreamingPersistence::should_flush is never called by the DST harnesses) would not be exercised".into(),
             "the async harnesses (streaming, compaction) run on a current-thread tokio runtime with the clock paused (their store latency is a real tokio::time::sleep of up to 100 ms per call; paused time auto-advances); thread scheduling is therefore not a dimension. Fewer operations than the presets' max_operations (300 / 200)".into(),
